@@ -147,6 +147,12 @@ KNOWN_EXC = ['TypeError', 'KeyError', 'ValueError', 'IndexError', 'AttributeErro
              'UnknownCheckerType']
 
 
+EXTRA_EXC = {'StopIteration': 901, 'StopAsyncIteration': 902, 'ArithmeticError': 903, 'ZeroDivisionError': 904,
+             'LookupError': 905, 'OSError': 906, 'AssertionError': 907, 'RecursionError': 908, 'UnicodeError': 909,
+             'NotImplementedError': 910, 'BufferError': 911, 'EOFError': 912}
+EXTRA_BASE = {'GeneratorExit': 901, 'KeyboardInterrupt': 902, 'SystemExit': 903}
+
+
 def s_exc(e):
     """an exception instance -> the model's token for its class"""
     name = type(e).__name__
@@ -158,6 +164,10 @@ def s_exc(e):
         return 'B:Base' + m.group(1)
     if name in KNOWN_EXC:
         return 'E:' + name
+    if name in EXTRA_EXC:
+        return 'E:Custom%d' % EXTRA_EXC[name]
+    if name in EXTRA_BASE:
+        return 'B:Base%d' % EXTRA_BASE[name]
     if name == 'Exception':
         return 'E:Exception'
     if isinstance(e, Exception):
